@@ -174,7 +174,11 @@ func CheckValues(rr *RealResult, ref *RefResult) string {
 		}
 		got := b.OptVal[o.ID].Interface()
 		if !ValEqual(got, want) {
-			return fmt.Sprintf("option %s (%s, %s, source %s, %d occurrences): field holds %s, expected %s", o.ID, o.Display(), o.Kind, ref.Sources[o.ID], ref.Occ[o.ID], ShowVal(got), ShowVal(want))
+			note := ""
+			if why := b.Detached[o.ID]; why != "" {
+				note = " [the caller's struct does not contain this field: " + why + ", although the option is registered]"
+			}
+			return fmt.Sprintf("option %s (%s, %s, source %s, %d occurrences): field holds %s, expected %s%s", o.ID, o.Display(), o.Kind, ref.Sources[o.ID], ref.Occ[o.ID], ShowVal(got), ShowVal(want), note)
 		}
 	}
 	if len(b.CbLog) != len(ref.CbLog) {
